@@ -134,6 +134,11 @@ type workload struct {
 	Build      func(d *driver.Driver, a arch.Type, p []int) benchmarks.Benchmark
 	NeedsMNIST bool
 	Runnable   bool // false: linked but cannot run here (reason in Admit)
+	// OracleBlind: the workload's Verify() does not look at the data read back
+	// (established by reading it and confirmed by the sabotage run of the
+	// thorough tier). Its runs are executed and counted, but they are not
+	// "non-trivial" and say nothing about the property.
+	OracleBlind bool
 	// Quar names the region of a listed known finding that (p, c) lies in
 	// ("" = none). Quarantined regions are not drawn by the seeded planner
 	// (every run there fails for the listed reason and would need a key of its
@@ -451,11 +456,12 @@ func workloads() []*workload {
 		{
 			Name: "fft", Suite: "shoc", Archs: both,
 			ParamNames: []string{"bytes"}, Anchor: []int{1 << 20}, AnchorSrc: "cases.go: -MB=1",
-			Sizes:      [][]int{{8192}, {20000}, {65536}, {1 << 20}},
-			Admit:      "bytes >= 8192 (sample flag -bytes): initMem() derives the number of 512-point transforms by integer division and sizes buffers and grid from that (host rounds down), 64 work-items per transform",
-			Adm:        func(p []int, c class) bool { return p[0] >= 8192 },
-			Cost:       func(p []int) int { return p[0] * 6 },
-			PlainMulti: true, Splits: false, UnifiedMem: true, TimingList: tlFull, Oracle: oVerify,
+			Sizes:       [][]int{{8192}, {20000}, {65536}, {1 << 20}},
+			Admit:       "bytes >= 8192 (sample flag -bytes): initMem() derives the number of 512-point transforms by integer division and sizes buffers and grid from that (host rounds down), 64 work-items per transform",
+			Adm:         func(p []int, c class) bool { return p[0] >= 8192 },
+			Cost:        func(p []int) int { return p[0] * 6 },
+			OracleBlind: true, // fftCPU() compares the two halves of the host INPUT array; Benchmark.result is never read
+			PlainMulti:  true, Splits: false, UnifiedMem: true, TimingList: tlFull, Oracle: oVerify,
 			Build: func(d *driver.Driver, a arch.Type, p []int) benchmarks.Benchmark {
 				b := fft.NewBenchmark(d)
 				b.Arch, b.Bytes, b.BytesMode, b.Passes = a, int64(p[0]), true, 1
